@@ -42,9 +42,9 @@ impl<F: Float> TweedieDistribution<F> {
     // Returns `true` if y is in the valid range
     pub fn in_range(&self, y: &ArrayView1<F>) -> bool {
         if self.inclusive {
-            return y.iter().all(|&x| x >= self.lower_bound);
+            return y.iter().all(|&x| x.is_finite() && x >= self.lower_bound);
         }
-        y.iter().all(|&x| x > self.lower_bound)
+        y.iter().all(|&x| x.is_finite() && x > self.lower_bound)
     }
 
     fn unit_variance(&self, ypred: ArrayView1<F>) -> Array1<F> {
